@@ -192,6 +192,12 @@ def main(path):
         def stub(*a, _ret=ret, _ev=st.get("event"), _sig=sig, **k):
             if _ev:
                 ev = Event(_ev, a, k)
+                ev.named = {}
+                if _sig is not None:
+                    try:
+                        ev.named = dict(_sig.bind(*a, **k).arguments)
+                    except TypeError:
+                        pass
                 log.append(ev)
                 guards_cb(ev)
             if isinstance(_ret, str) and _ret not in ("int", "bool", "bytes", "str", "real", "any"):
